@@ -205,6 +205,20 @@ impl Pager {
             .truncate(false)
             .open(&path)?;
 
+        // One handle per database: an advisory exclusive lock on the page file, held until the
+        // pager is dropped. A second handle on the same files - in this or in another process -
+        // would keep its own id counters and log position and corrupt the database.
+        match file.try_lock() {
+            Ok(()) => {}
+            Err(std::fs::TryLockError::WouldBlock) => {
+                return Err(Error::Io(std::io::Error::new(
+                    std::io::ErrorKind::WouldBlock,
+                    format!("database {} is already open in another handle", path.display()),
+                )));
+            }
+            Err(std::fs::TryLockError::Error(e)) => return Err(Error::Io(e)),
+        }
+
         // A crash between set_len and the first meta write of a brand-new file leaves two
         // zero-filled pages; nothing was ever stored in it, so initialise it again.
         let never_initialised = existed && file.metadata()?.len() == (PAGE_SIZE * 2) as u64 && {
